@@ -61,6 +61,34 @@ func main() {
 		} else {
 			fmt.Println("LOAD ok", hex.EncodeToString(b))
 		}
+	case "storeretryload":
+		// the same process stores the node, (possibly fails,) stores it again, and reads it back
+		payload, err := os.ReadFile(os.Args[4])
+		if err != nil {
+			fmt.Println("HARNESS error:", err)
+			os.Exit(2)
+		}
+		err = p.Store(ctx, name, payload)
+		if err != nil {
+			fmt.Println("STORE error:", err)
+		} else {
+			fmt.Println("STORE ok")
+		}
+		err = p.Store(ctx, name, payload)
+		if err != nil {
+			fmt.Println("STOREB error:", err)
+		} else {
+			fmt.Println("STOREB ok")
+		}
+		b, err := p.Load(ctx, name)
+		switch {
+		case err != nil:
+			fmt.Println("LOADB error:", err)
+		case bytes.Equal(b, payload):
+			fmt.Println("LOADB complete", len(b))
+		default:
+			fmt.Println("LOADB WRONG", len(b), "of", len(payload))
+		}
 	case "storeload":
 		// a second writer of the same node, followed by its own read-back
 		payload, err := os.ReadFile(os.Args[4])
